@@ -184,6 +184,11 @@ def second_validation(rnd, first, rid="r1"):
             entry["format_constraint_fulfilled"] = not entry["format_constraint_fulfilled"]
         entry["error_message"] = None if entry["format_constraint_fulfilled"] else f"E{key}@{rid}"
     cer["hints"] = {key: f"H{key}@{rid}" for key in cer["hints"]}
+    rc_keys = sorted(cer["requirement_constraints"])
+    for pkey in sorted(cer["packages"]):
+        if rc_keys and rnd.random() < 0.6 and not pkey.startswith("88"):  # (88xP: planted invalid packages of C16)
+            first, second = rnd.choice(rc_keys), rnd.choice(rc_keys)
+            cer["packages"][pkey] = rnd.choice([f"[{first}]", f"[{first}] U [{second}]", f"[{first}] X [{second}]"])
     if rnd.random() < 0.3:
         request["op"]["soll"] = not request["op"]["soll"]
     request["start"] = rnd.choice([1_000_000, 1_000_000, 0, 1, 3])
